@@ -554,6 +554,21 @@ func runC10(t *testing.T, c simrt.Chooser, o Opts) *Out {
 			served, inTime = true, true
 		}
 	}
+	// docker: the version negotiation (/_ping, HEAD then possibly GET, each on its own connection) is
+	// an auxiliary request like the secondary one - whatever it is answered with, /info has to be
+	// asked when the budget allows it by the endpoint's script
+	if !inTime && sc.Kind == "docker" && primReq == nil && sc.Connect == "accept" && sc.ConnFault == "" && sc.Server == sc.Scheme && prim.completes() {
+		if ping := sc.Resp["_ping"]; ping != nil && ping.Stall == "" && ping.Fault == "" {
+			scripted := 3*connTime + 2*ping.hdrDelay + prim.hdrDelay + time.Duration(max(1, prim.Pieces)-1)*prim.pieceDelay
+			if sc.Scheme == "https" {
+				scripted *= 2 // handshakes
+			}
+			if scripted < timeout/2 && scripted < timeout-5*time.Millisecond {
+				served, inTime = true, true
+				simrtProbe(&res, "docker-must-by-script")
+			}
+		}
+	}
 	okStatus := sc.Kind == "elastic" || (prim.Status >= 200 && prim.Status < 300)
 	// a redirect answer that itself carries a JSON object: whether that counts as "answered with a
 	// JSON object" (elastic) / "succeeded" (docker: the client library treats 3xx as success) is left open
